@@ -663,3 +663,33 @@ Proof.
   assert (E : a3 = 1 - a0 - a1 - a2) by lra. subst a3. clear Ha.
   destruct_tuples. cbv [ctrl_comb]. al_unfold. split_pairs; ring.
 Qed.
+
+(* ---------------------------------------------------------------- the allclose checks of mat2SO3 *)
+(* used by the conversion tie: when the ten tolerance tests pass, check=True changes nothing *)
+Lemma close_b_true (a b : R) : Rabs (a - b) <= 1 / 100000 + 1 / 100000 * Rabs b -> close_b a b = true.
+Proof.
+  intros H. unfold close_b. rewrite !absF_R. cbn [leb add mul sub NumR]. apply Rleb_true.
+  unfold conv_tol, frac. cbn [div ofZ NumR]. exact H.
+Qed.
+Definition checks_ok (m : mat3R) : Prop :=
+  let e := mmul3 m (mtrans m) in
+  Rabs (vx (mr0 e) - 1) <= 2 / 100000 /\ Rabs (vy (mr0 e)) <= 1 / 100000 /\ Rabs (vz (mr0 e)) <= 1 / 100000 /\
+  Rabs (vx (mr1 e)) <= 1 / 100000 /\ Rabs (vy (mr1 e) - 1) <= 2 / 100000 /\ Rabs (vz (mr1 e)) <= 1 / 100000 /\
+  Rabs (vx (mr2 e)) <= 1 / 100000 /\ Rabs (vy (mr2 e)) <= 1 / 100000 /\ Rabs (vz (mr2 e) - 1) <= 2 / 100000 /\
+  Rabs (mdet3 m - 1) <= 2 / 100000.
+Lemma close_one (a : R) : Rabs (a - 1) <= 2 / 100000 -> close_b a one = true.
+Proof. intros H. apply close_b_true. cbn [one NumR]. rewrite Rabs_R1. lra. Qed.
+Lemma close_zero (a : R) : Rabs a <= 1 / 100000 -> close_b a zero = true.
+Proof. intros H. apply close_b_true. cbn [zero NumR]. rewrite Rabs_R0, Rminus_0_r. lra. Qed.
+Lemma mat2SO3_checked (m : mat3R) : checks_ok m -> mat2SO3 true m = mat2SO3 false m.
+Proof.
+  intros (H1 & H2 & H3 & H4 & H5 & H6 & H7 & H8 & H9 & Hd). unfold mat2SO3.
+  assert (E1 : m3_close (mmul3 m (mtrans m)) mid3 = true).
+  { unfold m3_close, v3_close, mid3. cbn [mr0 mr1 mr2 vx vy vz fst snd].
+    rewrite (close_one _ H1), (close_zero _ H2), (close_zero _ H3), (close_zero _ H4), (close_one _ H5),
+            (close_zero _ H6), (close_zero _ H7), (close_zero _ H8), (close_one _ H9). reflexivity. }
+  rewrite E1, (close_one _ Hd). reflexivity.
+Qed.
+Lemma mat2Sim3_k_checked (T : mat3R * vec3R) (s : R) :
+  checks_ok (mdivs3 (fst T) s) -> mat2Sim3_k true T s = mat2Sim3_k false T s.
+Proof. intros H. unfold mat2Sim3_k. now rewrite (mat2SO3_checked _ H). Qed.
